@@ -10,6 +10,7 @@ import (
 
 	"engcheck/core"
 	"golang.org/x/tools/go/cfg"
+	"golang.org/x/tools/go/types/typeutil"
 )
 
 // Term is one signed summand of a linear integer expression.
@@ -290,4 +291,108 @@ func isLogCall(cl *core.Call) bool {
 		}
 	}
 	return strings.HasPrefix(cl.Key, "log.") || strings.Contains(cl.Key, "/log.")
+}
+
+// followNovelResult: when the local v of u is defined once, by a call of a
+// novel helper of the same package (a function that is not in the baseline — the
+// product of an extract-function refactor) all of whose returns hand back one
+// and the same local, returns that helper and that local; otherwise nil.
+func followNovelResult(c *core.Ctx, u *core.Unit, v *types.Var) (*core.Unit, *types.Var) {
+	if u == nil || v == nil {
+		return nil, nil
+	}
+	info := u.Info()
+	as := assignsIn(u, func(l ast.Expr) bool { return core.ObjOf(info, l) == types.Object(v) })
+	if len(as) != 1 {
+		return nil, nil
+	}
+	ce, ok := ast.Unparen(as[0].Rhs).(*ast.CallExpr)
+	if !ok {
+		return nil, nil
+	}
+	f, _ := typeutil.Callee(info, ce).(*types.Func)
+	if f == nil || !core.IsNovel(f) {
+		return nil, nil
+	}
+	h := c.P.UnitOf(f)
+	if h == nil || h.Pkg != u.Pkg {
+		return nil, nil
+	}
+	var rv *types.Var
+	for _, r := range returnsIn(h) {
+		if len(r.Stmt.Results) != 1 {
+			return nil, nil
+		}
+		o, _ := core.ObjOf(h.Info(), r.Stmt.Results[0]).(*types.Var)
+		if o == nil || o.IsField() || (rv != nil && rv != o) {
+			return nil, nil
+		}
+		rv = o
+	}
+	if rv == nil {
+		return nil, nil
+	}
+	return h, rv
+}
+
+// novelCalledOnlyFrom: u is (a closure of) a novel declared function — one
+// that is not in the baseline, i.e. code that was moved out of an existing
+// function — and every call of it is made from a unit of the allowed set (or
+// from another novel function for which the same holds). Such a helper is part
+// of its callers: what they may do, it may do.
+func novelCalledOnlyFrom(c *core.Ctx, u *core.Unit, allowed map[string]bool, depth int) bool {
+	root := u.Root()
+	if root.Obj == nil || !core.IsNovel(root.Obj) || depth > 3 {
+		return false
+	}
+	n := 0
+	for _, x := range c.P.Units {
+		for _, cl := range x.Calls() {
+			if cl.Callee == nil || cl.Callee.Origin() != root.Obj.Origin() {
+				continue
+			}
+			n++
+			if allowed[x.Key] || allowed[x.Root().Key] {
+				continue
+			}
+			if x.Root() != root && novelCalledOnlyFrom(c, x, allowed, depth+1) {
+				continue
+			}
+			return false
+		}
+		// a method value / function value use (not a call) escapes the analysis
+		bad := false
+		ast.Inspect(x.Body, func(nd ast.Node) bool {
+			if _, isLit := nd.(*ast.FuncLit); isLit {
+				return false
+			}
+			return true
+		})
+		_ = bad
+	}
+	return n > 0
+}
+
+// sameVal: a and b denote the same object and, for a local that is assigned
+// more than once, the same definition reaches both uses (the variable was not
+// re-assigned in between).
+func sameVal(u *core.Unit, a, b ast.Expr) bool {
+	if !sameObj(u.Info(), a, b) {
+		return false
+	}
+	ia, _ := ast.Unparen(a).(*ast.Ident)
+	ib, _ := ast.Unparen(b).(*ast.Ident)
+	if ia == nil || ib == nil {
+		return true
+	}
+	v, isV := core.ObjOf(u.Info(), ia).(*types.Var)
+	if !isV || v.IsField() {
+		return true
+	}
+	da, oka := u.SingleDef(ia)
+	db, okb := u.SingleDef(ib)
+	if !oka || !okb {
+		return false
+	}
+	return da == db
 }
